@@ -697,7 +697,72 @@ func ruleNextState(c *Check, p *Prog) {
 		}
 	}
 	if al == nil {
-		c.Unk(rule, "State.NextState", fnName(ns), "", "anchor lost: no State literal")
+		// copy-and-update form: next := *s; next.F = …; return next
+		var cp *ssa.Alloc
+		for _, b := range ns.Blocks {
+			for _, in := range b.Instrs {
+				a, ok := in.(*ssa.Alloc)
+				if !ok || a.Type().(*types.Pointer).Elem().String() != rootPath+"/types.State" {
+					continue
+				}
+				for _, r := range *a.Referrers() {
+					if st, ok := r.(*ssa.Store); ok && st.Addr == ssa.Value(a) {
+						if ld, ok := st.Val.(*ssa.UnOp); ok && ld.Op == token.MUL && ld.X == ssa.Value(ns.Params[0]) {
+							cp = a
+						}
+					}
+				}
+			}
+		}
+		if cp == nil {
+			c.Unk(rule, "State.NextState", fnName(ns), "", "anchor lost: no State literal and no copy of the receiver")
+			return
+		}
+		g := BuildECFG(p, ns, ExpandOpts{MaxDepth: 0})
+		c.NoteGraph(g)
+		hdr, root := ns.Params[1].Name(), ns.Params[2].Name()
+		exp := map[string]func(string) bool{
+			"LastBlockHeight": func(s string) bool { return strings.Contains(s, "types.Header).Height(") && strings.Contains(s, hdr) },
+			"LastBlockTime":   func(s string) bool { return strings.Contains(s, "types.Header).Time(") && strings.Contains(s, hdr) },
+			"AppHash": func(s string) bool {
+				return s == root || s == "bytes.Clone("+root+")" || (strings.HasPrefix(s, "append(") && strings.Contains(s, root))
+			},
+		}
+		for _, k := range sortedKeys(exp) {
+			var stores []*Node
+			okVal := true
+			val := ""
+			for _, nd := range g.Nodes {
+				st, ok := nd.In.(*ssa.Store)
+				if !ok || nd.Kind != NInstr || !g.Live()[nd] {
+					continue
+				}
+				fa, ok := st.Addr.(*ssa.FieldAddr)
+				if !ok || fa.X != ssa.Value(cp) || fieldLabel(fa.X.Type(), fa.Field) != k {
+					continue
+				}
+				stores = append(stores, nd)
+				val = TermOf(st.Val, ctx).String()
+				if !exp[k](val) {
+					okVal = false
+				}
+			}
+			inst := "State.NextState ⟂ " + k
+			switch {
+			case len(stores) == 0:
+				c.Bad(rule, inst, fnName(ns), p.Pos(ns.Pos()), k+" of the copied state is never updated: the new state carries the previous block's value", nil)
+			case !okVal:
+				c.Bad(rule, inst, fnName(ns), p.InstrPos(stores[0].In), k+" ← "+val+" (unexpected origin)", nil)
+			default:
+				c.Decide(rule, inst, fnName(ns), p.InstrPos(stores[0].In), k+" ← "+val+" on every path",
+					k+" of the copied state is updated on some paths only: on the others the new state keeps the previous block's value (a stale state root is persisted, put into the next header and validated against itself)",
+					g, g.PathAvoiding([]*Node{g.Entry}, g.AnyExit(), nodeSet(stores)))
+			}
+		}
+		for _, k := range []string{"ChainID", "DAHeight", "InitialHeight"} {
+			c.OK(rule, "State.NextState ⟂ "+k, fnName(ns), p.Pos(ns.Pos()), k+" kept from the receiver (copy)", true)
+		}
+		ruleNextStateApplier(c, p, rule)
 		return
 	}
 	st := litStores(al)
@@ -725,7 +790,11 @@ func ruleNextState(c *Check, p *Prog) {
 			c.Bad(rule, "State.NextState ⟂ "+k, fnName(ns), p.InstrPos(al), k+" ← "+s+" (unexpected origin)", nil)
 		}
 	}
-	// the applier passes the executor's root for this header and this block's transactions
+	ruleNextStateApplier(c, p, rule)
+}
+
+// ruleNextStateApplier: the applier passes the executor's root for this header and this block's transactions.
+func ruleNextStateApplier(c *Check, p *Prog, rule string) {
 	var ap *ssa.Function
 	if aps := funcsCalling(p, rootPath+"/block", func(n string) bool { return n == execM("ExecuteTxs") }); len(aps) == 1 {
 		ap = aps[0]
